@@ -962,6 +962,7 @@ type snProfile struct {
 }
 
 var snStrings = []string{"a", "hello world", "it's", `say "hi"`, `back\slash`, `both ' and "`, "x_y-z.w+v", "ünï", "\x01\xff", "{[,:;]}", " lead", "trail ", "A1", "b2b", "line\nbreak", "tab\there", strings.Repeat("long ", 30), "e", "B", "I;", "L"}
+
 // ("true"/"false" are not here: printed bare they are grey in the listed grammar)
 var snOddStrings = []string{"", "123", "-1", "1.5", "1b", "0x10", "1e5", "-", "12L", ".5", "+1", "1f", "0"}
 
